@@ -103,7 +103,7 @@ func expandNamedUUID(column *ColumnSchema, value interface{}, namedUUIDs map[str
 		valType = column.TypeObj.Value.Type
 	}
 
-	if valType == TypeUUID {
+	if column.Type == TypeMap && (keyType == TypeUUID || valType == TypeUUID) {
 		if m, ok := value.(OvsMap); ok {
 			for k, v := range m.GoMap {
 				if newUUID, ok := expandNamedUUIDAtomic(keyType, k, namedUUIDs); ok {
